@@ -164,6 +164,89 @@ def require(cond, clause, detail=""):
         raise Violation(clause, detail() if callable(detail) else detail)
 
 
+# ----------------------------------------------------------------------------------
+# deep snapshots: "the caller's arguments are not modified" / "the same call gives the same answer"
+# ----------------------------------------------------------------------------------
+
+def deep_snapshot(obj):
+    import copy
+    try:
+        import torch
+        if isinstance(obj, torch.Tensor):
+            return obj.detach().clone()
+    except ImportError:
+        pass
+    try:
+        import numpy
+        if isinstance(obj, numpy.ndarray):
+            return obj.copy()
+    except ImportError:
+        pass
+    try:
+        import pandas
+        if isinstance(obj, (pandas.DataFrame, pandas.Series)):
+            return obj.copy(deep=True)
+    except ImportError:
+        pass
+    if isinstance(obj, dict):
+        return {k: deep_snapshot(v) for k, v in obj.items()}
+    if isinstance(obj, (list, tuple)):
+        return type(obj)(deep_snapshot(v) for v in obj)
+    return copy.deepcopy(obj)
+
+
+def deep_equal(a, b):
+    import numpy
+    try:
+        import torch
+        if isinstance(a, torch.Tensor) or isinstance(b, torch.Tensor):
+            return isinstance(a, torch.Tensor) and isinstance(b, torch.Tensor) and a.shape == b.shape and a.dtype == b.dtype and \
+                bool(((a == b) | (a.isnan() & b.isnan() if a.is_floating_point() else torch.zeros_like(a, dtype=torch.bool))).all())
+    except ImportError:
+        pass
+    try:
+        import pandas
+        if isinstance(a, (pandas.DataFrame, pandas.Series)):
+            return type(a) is type(b) and a.equals(b)
+    except ImportError:
+        pass
+    if isinstance(a, numpy.ndarray) or isinstance(b, numpy.ndarray):
+        return isinstance(a, numpy.ndarray) and isinstance(b, numpy.ndarray) and a.shape == b.shape and a.dtype == b.dtype and \
+            bool(numpy.array_equal(a, b, equal_nan=a.dtype.kind == "f"))
+    if isinstance(a, dict):
+        return isinstance(b, dict) and list(a.keys()) == list(b.keys()) and all(deep_equal(a[k], b[k]) for k in a)
+    if isinstance(a, (list, tuple)):
+        return type(a) is type(b) and len(a) == len(b) and all(deep_equal(x, y) for x, y in zip(a, b))
+    return a == b
+
+
+class Unchanged:
+    """with Unchanged(clause, name=obj, ...): ...   raises Violation(clause) if any of the objects differs afterwards"""
+
+    def __init__(self, clause, **objs):
+        self.clause, self.objs = clause, objs
+
+    def __enter__(self):
+        self.snaps = {k: deep_snapshot(v) for k, v in self.objs.items()}
+        return self
+
+    def __exit__(self, et, ev, tb):
+        if et is None:
+            for k, v in self.objs.items():
+                if not deep_equal(v, self.snaps[k]):
+                    raise Violation(self.clause, "the caller's `%s` was modified by the call" % k)
+        return False
+
+
+def same_twice(fn, clause, *a, **k):
+    """Calls fn twice with the same arguments; the results must be identical (deterministic API)."""
+    r1 = sut(fn, *a, **k)
+    r2 = sut(fn, *a, **k)
+    if not deep_equal(r1, r2):
+        raise Violation(clause, "two identical calls returned different results")
+    return r1
+
+
 class Ctx:
     """Per-case recorder handed to the check function."""
 
